@@ -274,7 +274,12 @@ pub(crate) fn as_varint(value: i32) -> Vec<u8> {
 }
 
 pub(crate) fn get_string<B: ByteOrder>(buffer: &mut Buffer<B>) -> GDResult<String> {
-    let length = get_varint(buffer)? as usize;
+    let length: usize = get_varint(buffer)?
+        .try_into()
+        .map_err(|e| PacketBad.context(e))?;
+    if length > buffer.remaining_length() {
+        return Err(PacketBad.context("String length exceeds the remaining data"));
+    }
     let mut text = Vec::with_capacity(length);
 
     for _ in 0 .. length {
